@@ -88,6 +88,94 @@ CLAIMED = {
              'periodization: the extracted operators of all four subbands / of the reconstruction must be identical '
              '(or both must raise).',
         note=TB),
+    'C03': dict(
+        level='translation_validation', design='DESIGN.md 4/C03',
+        technique='abstract interpretation over formal table taps + translation validation against the frozen '
+                  'reference assembly of dtcwt 0.14.0',
+        text='For the 20 named filter pairs, sizes in every class of H,W mod 4 (odd included) and J up to 3-4: the '
+             'lowpass and all 6 orientations x (real, imag) per level of DTCWTForward are equal, as linear operators '
+             'with formal taps tagged by table key, to the reference assembly (edge replication for odd sizes, '
+             'multiple-of-4 extension, colfilter, coldfilt with (b,a) argument order and sign-dependent interleave, '
+             'q2c, orientation slot table). Shapes follow the reference pyramid recurrence exactly.',
+        note=TB + ' DTCWT reference rules were transcribed from dtcwt/numpy/lowlevel.py and transform2d.py and '
+                  'calibrated with tools/calibrate_dtcwt.py (1486 cases).'),
+    'C04': dict(
+        level='other', design='DESIGN.md 4/C04',
+        technique='operators of forward and inverse extracted by abstract interpretation, evaluated at the shipped '
+                  'table values and multiplied (S*A = E for all inputs)',
+        text='For all 20 filter pairs and sizes covering every H,W mod 4 class: sum over subbands of S_band*A_band '
+             'equals the identity on the image (edge replication on the extra row/column of odd sizes) to 1e-8; the '
+             'crop/extend bookkeeping is part of the interpreted code.',
+        note=TB),
+    'C06': dict(
+        level='other', design='DESIGN.md 4/C06',
+        technique='abstract interpretation of forward and hand-written backward of FWD_J1/FWD_J2PLUS/INV_J1/'
+                  'INV_J2PLUS; operator transposition modulo table symmetries; enumeration of grad subsets, '
+                  'layouts, skipped/absent bandpass variants',
+        text='Every required gradient equals the transpose of the forward operator for all cotangents, after '
+             'identifying taps that the shipped tables make equal (symmetric level-1 filters, tree b = reverse of '
+             'tree a; discharged per table by C18).',
+        note=TB),
+    'C11': dict(
+        level='translation_validation', design='DESIGN.md 4/C11',
+        technique='abstract interpretation + translation validation against the frozen reference inverse assembly; '
+                  'typestate enumeration of absent (None / 0-dim) levels',
+        text='DTCWTInverse on independent symbolic lowpass and subband tensors equals the reference inverse (c2q, '
+             'colifilt with (b,a) order, crop rule, colfilter) for the 20 pairs; every subset of absent levels for '
+             'J<=3 (None and 0-dim, lowpass included) is compared with zeros of the right shape.',
+        note=TB),
+    'C12': dict(
+        level='exploration', design='DESIGN.md 4/C12',
+        technique='exhaustive enumeration of the finite layout set by abstract interpretation; option siblings '
+                  'compared as operators',
+        text='All 30 ordered (o_dim, ri_dim) pairs in positive and negative spelling: forward output equals the '
+             'reference placed at those axes and the inverse configured with the same pair reconstructs the '
+             'reference inverse; every skip_hps / include_scale mask for J<=3 and prefix consistency are compared '
+             'with the plain transform (symmetric and zero mode) and with the reference.',
+        note=TB),
+    'C18': dict(
+        level='exploration', design='DESIGN.md 4/C18',
+        technique='static data inspection: .npz members parsed from zip + npy headers; algebraic identities; '
+                  'interpreted loader calls',
+        text='Exhaustive over the 14 shipped tables: value equality with the reference package per key, symmetry '
+             'and odd length of level-1 filters, h0o*g0o + h1o*g1o = unit impulse, q-shift time-reversal relations '
+             '(trees a/b, analysis/synthesis, band-pass variants), orthonormality, interleave sign; every loader '
+             'for every name returns arrays of the requested keys of that file and repeats after other loads.',
+        note='Trusted: the installed reference package dtcwt 0.14.0; tolerance 1e-12 (1e-9 for products).'),
+    'C07': dict(
+        level='other', design='DESIGN.md 4/C07',
+        technique='effect system by abstract interpretation: the domain represents only linear forms; slice '
+                  'provenance of every output cell',
+        text='Every public entry point (DWT/SWT/DTCWT modules with options, functional and non-separable banks incl. '
+             'negative-dim spellings, DTCWT low-level filters) is interpreted with (N,C)=(2,3) and (1,1): any '
+             'non-linear primitive, added constant, non-zero pad value, bias, reduction or branch on tensor contents '
+             'is reported with its statement; every output cell must read only the input slice with its own (n,c), '
+             'through one operator shared by all slices and independent of N and C. This decides linearity, '
+             'homogeneity and per-slice action for all inputs.',
+        note=TB + ' A data-dependent shortcut that happens to preserve linearity would be reported too (documented '
+                  'in DESIGN.md section 8).'),
+    'C15': dict(
+        level='other', design='DESIGN.md 4/C15',
+        technique='ownership / effect analysis by abstract interpretation (storage owners, views, tracked lists, '
+                  'persistent writes), abstract call-history comparison, syntactic who-may-call sweep',
+        text='No in-place primitive may target storage owned by an argument, buffer, parameter or cached table '
+             '(views followed); caller lists may not be mutated; module / global / class / function-attribute writes '
+             'during a call are tracked; results must be identical on repetition, with requires_grad set, and inside '
+             'arbitrary call sequences vs a fresh process (sequences are escalated to all ordered pairs for entry '
+             'kinds that write persistent state); no call site of a process-wide torch state setter exists in the '
+             'package. Thread-independence is the corollary that the only shared objects are read-only buffers and '
+             'the idempotent table cache.',
+        note=TB + ' Threads are not executed; PyTorch kernels are assumed thread-safe.'),
+    'C16': dict(
+        level='other', design='DESIGN.md 4/C16',
+        technique='dtype-provenance and contiguity analysis by abstract interpretation',
+        text='Decides clauses 1 and 3 of the property: every returned tensor has the input dtype, every factory / '
+             'cast on a data path derives its dtype from the input, every convolution weight on a module path is a '
+             'registered buffer/parameter (so .double()/.float() converts it), and no .view() is applied to '
+             'input-strided data (non-contiguous inputs give the same operator). Clause 2 (float32 accuracy bound) '
+             'is NOT decided: no static argument in reach bounds rounding error; only the necessary condition '
+             '"no narrowing cast on a data path" is enforced.',
+        note=TB + ' Assumes the module was converted to the dtype of its input.'),
 }
 
 NOT_APPLICABLE = {}
